@@ -62,13 +62,16 @@ func (proxy *multicastProxy) AddMember(m io.Closer) {
 			}
 		}
 
-		proxy.members = append(proxy.members, m)
 		proxy.cid = stream.StartConsume(proxy, media.RTPPacket,
 			"net = rtsp-multicast, "+proxy.multicastIP)
 		proxy.closed = false
 
 		proxy.logger.Info("multicast proxy started.")
 	}
+
+	// 每个成员都要登记(不只是第一个)：否则第一个成员离开时成员表为空，代理被停掉，
+	// 其余仍在观看的成员收不到后续媒体；流结束时也只会关闭第一个成员
+	proxy.members = append(proxy.members, m)
 }
 
 func (proxy *multicastProxy) ReleaseMember(m io.Closer) {
